@@ -24,7 +24,8 @@ META = {
             "with a drawn integer, FE budget 1..400), every register(x, y) "
             "checked; non-trivial = the run accepted at least one move with "
             "i = 0 and one with j = n-2 (moves inferred from consecutive "
-            "registered tours). Part fea@bc (worker with NUMBA_BOUNDSCHECK=1): "
+            "registered tours); long_run: the same with 3000..9000 evaluations on "
+            "4..7 cities. Part fea@bc (worker with NUMBA_BOUNDSCHECK=1): "
             "FEA runs on instances whose upper tour-length bound is attained "
             "(all distances equal, all but one, two clusters) plus ordinary "
             "runs - an index outside the frequency table, which is local to "
@@ -351,7 +352,18 @@ def fea_table_cases(draw: Any) -> dict:
             "budget": draw(st.integers(20, 400))}
 
 
-SUBS = {"kernel": check_kernel, "run": check_run, "fea_table": check_run}
+@st.composite
+def long_run_cases(draw: Any) -> dict:
+    """Long histories on few cities: thousands of moves (state that is
+    refreshed only every few thousand iterations, rare index pairs)."""
+    algo = draw(st.sampled_from(["ea", "fea"]))
+    return {"algo": algo, "mat": draw(sym_matrix(algo, max_n=7)),
+            "seed": draw(st.integers(0, 2 ** 63 - 1)),
+            "budget": draw(st.integers(3000, 9000))}
+
+
+SUBS = {"kernel": check_kernel, "run": check_run, "fea_table": check_run,
+        "long_run": check_run}
 
 
 def run(ctx: Ctx) -> None:
@@ -364,3 +376,5 @@ def run(ctx: Ctx) -> None:
     ctx.given("kernel", kernel_cases(), check_kernel, quick=3000,
               thorough=16 * 12000)
     ctx.given("run", run_cases(), check_run, quick=300, thorough=16 * 2000)
+    ctx.given("long_run", long_run_cases(), check_run, quick=16,
+              thorough=16 * 60, shrink=False)
